@@ -680,7 +680,7 @@ struct numeric_limits<float> {
     static constexpr auto infinity() noexcept -> float { return TETL_BUILTIN_HUGE_VALF; }
     static constexpr auto quiet_NaN() noexcept -> float { return TETL_BUILTIN_NANF(""); }      // NOLINT
     static constexpr auto signaling_NaN() noexcept -> float { return TETL_BUILTIN_NANSF(""); } // NOLINT
-    static constexpr auto denorm_min() noexcept -> float { return 0.0F; }
+    static constexpr auto denorm_min() noexcept -> float { return FLT_TRUE_MIN; }
 
     static constexpr bool is_iec559  = true;
     static constexpr bool is_bounded = true;
@@ -724,7 +724,7 @@ struct numeric_limits<double> {
     static constexpr auto infinity() noexcept -> double { return TETL_BUILTIN_HUGE_VAL; }
     static constexpr auto quiet_NaN() noexcept -> double { return TETL_BUILTIN_NAN(""); }      // NOLINT
     static constexpr auto signaling_NaN() noexcept -> double { return TETL_BUILTIN_NANS(""); } // NOLINT
-    static constexpr auto denorm_min() noexcept -> double { return 0.0; }
+    static constexpr auto denorm_min() noexcept -> double { return DBL_TRUE_MIN; }
 
     static constexpr bool is_iec559  = true;
     static constexpr bool is_bounded = true;
@@ -768,7 +768,7 @@ struct numeric_limits<long double> {
     static constexpr auto infinity() noexcept -> long double { return TETL_BUILTIN_HUGE_VALL; }
     static constexpr auto quiet_NaN() noexcept -> long double { return TETL_BUILTIN_NANL(""); }      // NOLINT
     static constexpr auto signaling_NaN() noexcept -> long double { return TETL_BUILTIN_NANSL(""); } // NOLINT
-    static constexpr auto denorm_min() noexcept -> long double { return 0.0L; }
+    static constexpr auto denorm_min() noexcept -> long double { return LDBL_TRUE_MIN; }
 
     static constexpr bool is_iec559  = true;
     static constexpr bool is_bounded = true;
